@@ -99,6 +99,9 @@ def c14(ctx):
     ctx.nontrivial += hist
     import cli
     cli.pvp_check(ctx)
+    # `chess play`: lines chosen from the printed board, typed against the engine
+    import frontends
+    frontends.play_check(ctx, 50 if quick else 400)
     ctx.rule = ("B2: games through the Game API from the start position and from catalogue seeds; at every ply all 4096 coordinate pairs (every few plies) or a near-miss sample, "
                 "near-miss notation strings derived from the labels the code prints (dropped/added x, wrong or missing disambiguation, wrong suffix, promotions without piece, labels of the previous position, junk), "
                 "then one legal input by coordinates or by notation. TLC: accepted iff CoordMatch / LabelMatch is non-empty, the accepted input plays exactly that move (queen for a coordinate promotion) "
@@ -122,6 +125,9 @@ def c15(ctx):
     # the real engine-versus-engine game loop, observed through what it prints
     import cli
     cli.watch_check(ctx, 40 if quick else 420)
+    # the engine's replies to a human at the `chess play` prompt
+    import frontends
+    frontends.play_check(ctx, 40 if quick else 300)
     if hist < 50:
         raise ToolError("vacuity guard: only %d opening-book nodes were visited" % hist)
     ctx.rule = ("B2: every node of the COMPILED opening-book trie (enumerated through Book::get_next_moves, so the build script's output for the current opening_lines.txt) is reached by playing its prefix "
